@@ -18,9 +18,12 @@ import (
 	"github.com/caddyserver/caddy/v2"
 	revocation "github.com/gr33nbl00d/caddy-revocation-validator"
 	"github.com/gr33nbl00d/caddy-revocation-validator/crl"
+	"github.com/gr33nbl00d/caddy-revocation-validator/core"
+	"github.com/gr33nbl00d/caddy-revocation-validator/crl/crlloader"
 	"github.com/gr33nbl00d/caddy-revocation-validator/crl/crlrepository"
 	"github.com/gr33nbl00d/caddy-revocation-validator/crl/crlstore"
 	"github.com/muesli/cache2go"
+	"go.uber.org/zap"
 )
 
 // ---------------------------------------------------------------------------------------------
@@ -556,4 +559,33 @@ func repoStore(repo *crlrepository.Repository) crlstore.CRLStore {
 		}
 	}
 	return nil
+}
+
+// repoStoreOf returns the CRLStore of the repository entry with the given identifier.
+func repoStoreOf(repo *crlrepository.Repository, id string) crlstore.CRLStore {
+	if repo == nil {
+		return nil
+	}
+	v := reflect.ValueOf(repo).Elem()
+	for i := 0; i < v.NumField(); i++ {
+		f := v.Field(i)
+		if f.Kind() == reflect.Map && f.Type().Elem() == reflect.TypeOf((*crlrepository.Entry)(nil)) {
+			m := reflect.NewAt(f.Type(), unsafe.Pointer(f.UnsafeAddr())).Elem().Interface().(map[string]*crlrepository.Entry)
+			if e := m[id]; e != nil {
+				return e.CRLStore
+			}
+		}
+	}
+	return nil
+}
+
+// calcCDPIdentifier computes the repository identifier of a certificate's distribution-point set through the
+// repository's own loader factory (so that a change of the identifier scheme is followed).
+func calcCDPIdentifier(urls ...string) string {
+	l, err := crlloader.DefaultCRLLoaderFactory{}.CreatePreferredCrlLoader(&core.CRLLocations{CRLDistributionPoints: urls}, zap.NewNop())
+	if err != nil {
+		return ""
+	}
+	id, _ := l.GetCRLLocationIdentifier()
+	return id
 }
